@@ -584,7 +584,7 @@ func (w *vWorld) servePiece(i, pi int, mode string) string {
 		case p2p.Message_PIECE_PAYLOAD:
 			res = "sent"
 			// the conn's write loop closes the reader when it is done with the payload (sent or not)
-			wait := 2 * time.Second
+			wait := 20 * time.Second // generous: on an overloaded machine the write loop may not be scheduled for seconds
 			if atomic.LoadInt32(&vUnclosed) >= 3 {
 				wait = 30 * time.Millisecond // it has been reported; do not spend 2 s on every further serve
 			}
@@ -601,7 +601,7 @@ func (w *vWorld) servePiece(i, pi int, mode string) string {
 			// reached the remote end — or the conn has closed itself after a failed send — that has happened.
 			if res == "sent" {
 				local.Send(conn.NewCompleteMessage())
-				for dl := time.Now().Add(60 * time.Second); ; time.Sleep(20 * time.Microsecond) {
+				for dl := time.Now().Add(300 * time.Second); ; time.Sleep(20 * time.Microsecond) {
 					if local.IsClosed() {
 						break
 					}
